@@ -196,6 +196,8 @@ def catalogue(tier="quick"):
         H("HE", [("o", H("Mid", [("k", i8), ("leaf", inn2), ("u", f64, 0.5)])), ("z", arr(f64, [None, None])), ("c", i16)]),
         H("HF", [("p", stat), ("q", stat), ("f", f64, 1.5), ("g", i8)], rename=[("f", "ff")]),
         H("HG", [("r1", href(stat)), ("r2", href(inn)), ("a", arr(i8, [None]))]),
+        # a declared default of a string field
+        H("HS", [("s", STR, "abc"), ("n", i64, 3), ("t", STR)], rename=[("t", "tt")]),
         # declared defaults of dynamic array fields (a value of another length must not be compared by broadcasting)
         H("HK", [("v", arr(f64, [None]), (1.0, 1.0, 1.0)), ("w", arr(i16, [None]), (2, 2)), ("c", f64, 4.0), ("t", STR)], rename=[("w", "ww")]),
     ]
